@@ -7,6 +7,7 @@ import (
 	"os/exec"
 	"path/filepath"
 	"regexp"
+	"sort"
 	"strconv"
 	"strings"
 	"time"
@@ -70,6 +71,65 @@ func c17BatchFile(L int, variant string, lineHead string) string {
 		b.WriteString(nl) // trailing blank line
 	}
 	return b.String()
+}
+
+// c17BigFile: a batch file of several MiB made of ordinary short lines in which, at every boundary of the list (powers of
+// two from 4 KiB to 4 MiB, their 3x multiples and every whole MiB), a line terminator is placed exactly on the boundary:
+// mode 0 - the terminator's last byte is the FIRST byte of the new block (CRLF: the boundary falls between CR and LF);
+// mode 1 - the terminator's last byte is the LAST byte of the old block (the next line starts the new block).
+// Returns the content, the number of lines and the 0-based indices of the lines whose terminator sits on a boundary.
+func c17BigFile(crlf bool, mode int, lineHead string, maxBytes int) (string, int, []int) {
+	nl := "\n"
+	if crlf {
+		nl = "\r\n"
+	}
+	var bounds []int
+	for b := 4096; b <= maxBytes; b *= 2 {
+		bounds = append(bounds, b)
+		if 3*b/2 <= maxBytes {
+			bounds = append(bounds, 3*b/2)
+		}
+	}
+	for b := 1 << 20; b <= maxBytes; b += 1 << 20 {
+		bounds = append(bounds, b)
+	}
+	sort.Ints(bounds)
+	var b strings.Builder
+	var aligned []int
+	i := 0
+	line := func(pad int) {
+		fmt.Fprintf(&b, "%s%s soilId=X%06d%s", lineHead, strings.Repeat(" ", pad), i, nl)
+		i++
+	}
+	plain := len(lineHead) + len(" soilId=X000000") + len(nl)
+	last := -1
+	for _, bd := range bounds {
+		if bd == last {
+			continue
+		}
+		last = bd
+		// where the byte after this line's terminator must be
+		end := bd + 1
+		if mode == 1 {
+			end = bd
+		}
+		if b.Len()+plain > end {
+			continue
+		}
+		for b.Len()+2*plain <= end {
+			line(0)
+		}
+		pad := end - b.Len() - plain
+		if pad < 0 || pad > 60000 {
+			continue
+		}
+		aligned = append(aligned, i)
+		line(pad)
+	}
+	for k := 0; k < 7; k++ {
+		line(0)
+	}
+	return b.String(), i, aligned
 }
 
 func runBin(timeoutSec int, dir string, bin string, args ...string) (string, error, bool) {
@@ -290,6 +350,116 @@ func init() {
 				}
 			}
 		}
+
+		// big files: several MiB of ordinary lines with line terminators placed exactly on the boundaries of every plausible
+		// read block (4 KiB ... 4 MiB, 3x multiples, whole MiB); the calculator must count them, and the ranges that contain a
+		// boundary line (plus the first and the last range) are executed by the simulator and identified by content
+		maxBytes := 4<<20 + 8192
+		if tier == "thorough" {
+			maxBytes = 16<<20 + 8192
+		}
+		for bi := 0; bi < 4; bi++ {
+			if bi%nshards != shard {
+				continue
+			}
+			crlf, mode := bi&1 == 1, bi>>1
+			variant := fmt.Sprintf("big_%s_mode%d", map[bool]string{false: "lf", true: "crlf"}[crlf], mode)
+			begin(variant)
+			content, L, aligned := c17BigFile(crlf, mode, lineHead, maxBytes)
+			batch := filepath.Join(dir, "batch_"+variant+".txt")
+			os.WriteFile(batch, []byte(content), 0644)
+			content = ""
+			var execRanges [][2]int
+			for _, K := range []int{1, 2, 3, 7, 64, 1000, L / 16, L - 1, L, L + 1} {
+				res.cov("big_file_evaluations", 1)
+				desc := fmt.Sprintf("lines=%d nodes=%d encoding=%s (%d line ends on block boundaries)", L, K, variant, len(aligned))
+				sizeOut, e1, to1 := runBin(60, dir, calc, "-size", strconv.Itoa(K), "-batch", batch)
+				listOut, e2, to2 := runBin(60, dir, calc, "-list", strconv.Itoa(K), "-batch", batch)
+				if to1 || to2 {
+					res.cov("inconclusive_timeouts", 1)
+					continue
+				}
+				if e1 != nil || e2 != nil {
+					res.violate("C17", "calculator_failed", fmt.Sprintf("%s: batch calculator failed: %v %v", desc, e1, e2), nil)
+					continue
+				}
+				size, err := strconv.Atoi(strings.TrimSpace(sizeOut))
+				toks := strings.Fields(listOut)
+				if err != nil || len(toks) != size {
+					res.violate("C17", "range_count_ne_size", fmt.Sprintf("%s: -list printed %d ranges but -size reports %q", desc, len(toks), strings.TrimSpace(sizeOut)), nil)
+					continue
+				}
+				next, okRanges := 1, true
+				var ranges [][2]int
+				for _, t := range toks {
+					ab := strings.Split(t, "-")
+					if len(ab) != 2 {
+						okRanges = false
+						break
+					}
+					a, ea := strconv.Atoi(ab[0])
+					b, eb := strconv.Atoi(ab[1])
+					if ea != nil || eb != nil || a != next || b < a {
+						okRanges = false
+						break
+					}
+					next = b + 1
+					ranges = append(ranges, [2]int{a, b})
+				}
+				if !okRanges || next != L+1 {
+					first, lastTok := "", ""
+					if len(toks) > 0 {
+						first, lastTok = toks[0], toks[len(toks)-1]
+					}
+					res.violate("C17", "ranges_not_a_partition", fmt.Sprintf("%s: the %d ranges (%s ... %s) are not contiguous, disjoint and covering 1..%d", desc, len(toks), first, lastTok, L), nil)
+					continue
+				}
+				res.cov("big_file_partitions_ok", 1)
+				if K == L/16 {
+					pick := map[int]bool{0: true, len(ranges) - 1: true}
+					for _, al := range aligned {
+						for ri, ab := range ranges {
+							if al+1 >= ab[0]-1 && al+1 <= ab[1]+1 {
+								pick[ri] = true
+							}
+						}
+					}
+					for ri := range ranges {
+						if pick[ri] {
+							execRanges = append(execRanges, ranges[ri])
+						}
+					}
+				}
+			}
+			for _, ab := range execRanges {
+				key := fmt.Sprintf("%d-%d", ab[0], ab[1])
+				desc := fmt.Sprintf("lines=%d encoding=%s", L, variant)
+				disp, done, summ, conts, raw, to, err := c17Exec(h2g, dir, batch, key, []int{1, 2, 3, 16}[(ab[0]+ab[1])%4])
+				res.cov("simulator_invocations", 1)
+				if to {
+					res.cov("inconclusive_timeouts", 1)
+					continue
+				}
+				if err != nil {
+					res.violate("C17", "simulator_failed", fmt.Sprintf("%s: hermes2go -lines %s failed: %v\n%s", desc, key, err, lastLines(raw, 5)), nil)
+					continue
+				}
+				want := []int{}
+				for i := ab[0] - 1; i <= ab[1]-1 && i < L; i++ {
+					want = append(want, i)
+				}
+				if !sameMultiset(disp, done) || !sameMultiset(disp, summ) {
+					res.violate("C17", "dispatch_result_mismatch", fmt.Sprintf("%s: -lines %s dispatched %v, reported %v, error summary lists %v", desc, key, disp, done, summ), nil)
+				} else if !sameMultiset(disp, want) {
+					res.violate("C17", "line_range_executes_wrong_lines", fmt.Sprintf("%s: -lines %s executed ids %v, expected %v", desc, key, disp, want), nil)
+				} else if !sameMultiset(conts, want) {
+					res.violate("C17", "line_range_executes_wrong_content", fmt.Sprintf("%s: -lines %s executed the batch lines %v (-1 = an entry that is not a batch line), expected lines %v", desc, key, conts, want), nil)
+				} else {
+					res.cov("big_file_ranges_executed_ok", 1)
+				}
+			}
+			os.Remove(batch)
+		}
 		return res
 	}
 
@@ -309,8 +479,8 @@ func init() {
 		}
 		total := int64(maxL * maxK * len(c17Variants))
 		spec := checkSpec{Prop: "C17", Level: "exploration",
-			Rule:     fmt.Sprintf("exhaustive to the bound: every line count 1..%d x node count 1..%d x batch-file encoding %v; for each the real calcHermesBatch -list/-size output is checked (contiguous, disjoint, covering, count = size) and every printed range is executed by the real hermes2go -lines a-b at concurrency 1/2/3/16 on instantly failing lines; the multiset of executed log ids must be {0..L-1}; evaluations = (lines, nodes, encoding) triples, non-trivial = triples whose ranges were all executed and verified", maxL, maxK, c17Variants),
-			Floors:   []string{"pairs_lines_nodes_ok", "pairs_fewer_lines_than_nodes", "pairs_with_remainder", "simulator_invocations"},
+			Rule:     fmt.Sprintf("exhaustive to the bound: every line count 1..%d x node count 1..%d x batch-file encoding %v; for each the real calcHermesBatch -list/-size output is checked (contiguous, disjoint, covering, count = size) and every printed range is executed by the real hermes2go -lines a-b at concurrency 1/2/3/16 on instantly failing lines; the multiset of executed log ids must be {0..L-1}; plus four files of 4 MiB (thorough 16 MiB) whose line ends sit exactly on / just before every power-of-two block boundary from 4 KiB up, partitioned for 10 node counts, with the ranges around the boundary lines executed and identified by content; evaluations = (lines, nodes, encoding) triples, non-trivial = triples whose ranges were all executed and verified", maxL, maxK, c17Variants),
+			Floors:   []string{"pairs_lines_nodes_ok", "pairs_fewer_lines_than_nodes", "pairs_with_remainder", "simulator_invocations", "big_file_partitions_ok", "big_file_ranges_executed_ok"},
 			FloorMin: map[string]int64{"pairs_lines_nodes_ok": total}}
 		extra := map[string]interface{}{"exhaustive": true, "bound_lines": maxL, "bound_nodes": maxK, "encodings": c17Variants}
 		return finishCheck(spec, tier, seed, cases, inc, t0, extra)
